@@ -84,7 +84,7 @@ theorem mapInsert_step {f : Forest} {e nm : Nat} {N A S : List HTree} (h : MInv 
   cases hf : (Sect.sec k N A).find? (fun c => entryKey c.value == entryKey entry) with
   | some n =>
     obtain ⟨hkey, s1, s2, hs, hs1⟩ := find?_key_split _ _ _ hf
-    obtain ⟨heq, hinv, hmap, hnodes⟩ := insert_existing h k entry hm n s1 s2 hs hkey hs1
+    obtain ⟨heq, hinv, hmap, hnodes⟩ := insert_existing h k entry hm n s1 s2 hs _ hkey hs1
     refine ⟨_, ⟨?_, ?_, ?_⟩, rfl, hmap, fun _ _ => hnodes, fun hn => (by cases hn)⟩
     · simp only; rw [heq]
     · simp only; rw [heq]; exact hinv
